@@ -23,7 +23,9 @@ TReset == /\ IsEvent("Reset")
 TSilent == /\ \/ \E g \in G : Enq(g)
               \/ FOuter \/ FInnerTake \/ FInnerDone \/ FPark \/ FExit \/ FlushReq
            /\ UNCHANGED l
-TraceNext == TLogCall \/ TLogRet \/ TWrite \/ TBetween \/ TFlushCall \/ TFlushRet \/ TReset \/ TSilent
+\* the run's configuration (queue capacity: the traces are validated in groups of equal capacity, see Trace.cfg)
+TConfig == IsEvent("Config") /\ Trace[l].k = K /\ UNCHANGED vars
+TraceNext == TConfig \/ TLogCall \/ TLogRet \/ TWrite \/ TBetween \/ TFlushCall \/ TFlushRet \/ TReset \/ TSilent
 TraceSpec == TraceInit /\ [][TraceNext]_tvars
 ASSUME TLCSet(1, 0)
 HighWater == (IF l > TLCGet(1) THEN TLCSet(1, l) ELSE TRUE)
